@@ -15,6 +15,8 @@
 package views
 
 import (
+	"unicode"
+
 	"github.com/mattn/go-runewidth"
 
 	"github.com/gdamore/tcell/v2"
@@ -185,6 +187,11 @@ func (t *Text) SetText(s string) {
 	length := 0
 	for i, r := range t.text {
 		t.widths[i] = runewidth.RuneWidth(r)
+		if unicode.IsControl(r) && r != '\n' {
+			// a control character is no combining mark: it gets a cell
+			// of its own (where it shows as a blank)
+			t.widths[i] = 1
+		}
 		t.styles[i] = t.style
 		if r == '\n' {
 			t.lengths = append(t.lengths, length)
